@@ -20,6 +20,12 @@ from . import common as cm
 
 REQ = ["Livepatch.Heap", "Livepatch.Patch", "Livepatch.Xreload", "Livepatch.Wire"]
 
+ANCHORS = ["pyflyby._livepatch:livepatch", "pyflyby._livepatch:_livepatch__module", "pyflyby._livepatch:_livepatch__dict",
+           "pyflyby._livepatch:_livepatch__function", "pyflyby._livepatch:_livepatch__method",
+           "pyflyby._livepatch:_livepatch__setattr", "pyflyby._livepatch:_livepatch__class",
+           "pyflyby._livepatch:_livepatch__object", "pyflyby._livepatch:_get_definition_module",
+           "pyflyby._livepatch:_xreload_module"]
+
 DUNDERS = ["__path__", "__package__", "__loader__", "__spec__", "__cached__"]
 
 # ---------------------------------------------------------------------------------------------
@@ -35,6 +41,23 @@ def gen_version(r, ver, rich):
     """returns (source, descriptor); descriptor: name -> spec (what the generator meant)"""
     desc = {}
     lines = list(PRE)
+    # fixed position, body independent of the version: the code objects of both versions are equal, only the
+    # positional defaults / keyword-only defaults / annotation / separately assigned docstring may differ
+    pick = lambda a, b: r.choice([a, a, b])
+    lines += ["def dflt(a=%d, b=%r): return ('dflt', a, b)" % (pick(7, 100 + ver), pick("x", "y%d" % ver)),
+              "def kwd(*, k=%d): return ('kwd', k)" % pick(7, 100 + ver),
+              "def ann(a: %s = 0): return ('ann', a)" % pick("int", ["str", "float"][ver - 1]),
+              "def docf(): return 'docf'",
+              "docf.__doc__ = %r" % pick("doc", "doc v%d" % ver),
+              "class Dm:",
+              "    def m(self, a=%d): return ('Dm.m', a)" % pick(7, 100 + ver),
+              "    @staticmethod",
+              "    def s(a=%d, *, k=%d): return ('Dm.s', a, k)" % (pick(7, 100 + ver), pick(7, 100 + ver)),
+              "    @classmethod",
+              "    def c(cls, a=%d): return ('Dm.c', a)" % pick(7, 100 + ver)]
+    for n in ("dflt", "kwd", "ann", "docf"):
+        desc[n] = ("func", n, None)
+    desc["Dm"] = ("class", None, {"m": "method", "s": "static", "c": "clsm"}, None)
     classes = []
     for n in NAMES:
         if r.random() < .22:
@@ -302,8 +325,8 @@ class Snap(object):
                     except ValueError:
                         raise Unsupported("empty cell")
                 md = o.__module__ if isinstance(getattr(o, "__module__", None), str) else None
-                recs[a] = ["func", o.__name__, md, ref(o.__code__), ref(o.__defaults__), ref(o.__doc__),
-                           ref(o.__dict__), cl, list(o.__code__.co_freevars)]
+                recs[a] = ["func", o.__name__, md, ref(o.__code__), ref(o.__defaults__), ref(o.__kwdefaults__),
+                           ref(o.__doc__), ref(o.__annotations__), ref(o.__dict__), cl, list(o.__code__.co_freevars)]
             elif isinstance(o, type):
                 md = o.__dict__.get("__module__") if isinstance(o.__dict__.get("__module__"), str) else getattr(o, "__module__", None)
                 if md == self.modname:
@@ -389,7 +412,8 @@ def _members(c, inst):
     return out
 def obs_val(v, depth=0):
     if isinstance(v, types.FunctionType):
-        return ['func', v.__name__, _call(v), repr(v.__defaults__), v.__doc__, sorted(v.__dict__.items())]
+        return ['func', v.__name__, _call(v), repr(v.__defaults__), repr(v.__kwdefaults__), v.__doc__,
+                sorted((k, getattr(t, '__name__', repr(t))) for k, t in v.__annotations__.items()), sorted(v.__dict__.items())]
     if isinstance(v, types.MethodType):
         return ['method', _call(v)]
     if isinstance(v, type):
@@ -432,15 +456,30 @@ except BaseException as e:
 '''
 
 
-def inject_failure(src, k):
+# (expected type name, statement): Exception subclasses, BaseException subclasses that are not Exceptions
+# (the handler in _xreload_module is a bare `except:`), a user BaseException subclass, and a compile-time failure
+EXC_KINDS = [
+    ("RuntimeError", "raise RuntimeError('injected')"),
+    ("SystemExit", "import sys as _verif_sys; _verif_sys.exit(3)"),
+    ("ZeroDivisionError", "_verif_x = 1 / 0"),
+    ("KeyboardInterrupt", "raise KeyboardInterrupt()"),
+    ("VerifBase", "raise type('VerifBase', (BaseException,), {})('injected')"),
+    ("GeneratorExit", "raise GeneratorExit()"),
+    ("SyntaxError", "def (:"),
+    ("ImportError", "import verif_no_such_module_xyz"),
+]
+
+
+def inject_failure(src, k, kind=0):
     """new source that raises just before top-level statement k (k = number of statements: at the end)"""
+    stmt = EXC_KINDS[kind % len(EXC_KINDS)][1]
     body = ast.parse(src).body
     lines = src.split("\n")
     if k >= len(body):
-        return src + "raise RuntimeError('injected')\n"
+        return src + stmt + "\n"
     st = body[k]
     ln = min([st.lineno] + [d.lineno for d in getattr(st, "decorator_list", [])])
-    return "\n".join(lines[:ln - 1] + ["raise RuntimeError('injected')"] + lines[ln - 1:])
+    return "\n".join(lines[:ln - 1] + [stmt] + lines[ln - 1:])
 
 
 def impl_case(c):
@@ -509,18 +548,19 @@ def impl_case(c):
         fails = []
         pre = snap.snapshot([mod])
         for k in range(nstmt + 1):
-            write(inject_failure(c["new"], k))
+            kind = (k + c["i"]) % len(EXC_KINDS)
+            write(inject_failure(c["new"], k, kind))
             try:
                 LP.xreload(mod)
                 raised = None
-            except RuntimeError as e:
-                raised = str(e)
             except BaseException as e:
-                raised = "other: %s %s" % (type(e).__name__, e)
+                raised = type(e).__name__
+                if isinstance(e, ModuleNotFoundError):
+                    raised = "ImportError"
             post = snap.snapshot([mod])
             same_graph = post == pre
             ident = all(vars(mod).get(n) is v for n, v in captured.items()) and set(vars(mod)) == set(captured)
-            fails.append({"k": k, "raised": raised, "same_graph": same_graph, "same_bindings": ident,
+            fails.append({"k": k, "raised": raised, "expected": EXC_KINDS[kind][0], "kind": kind, "same_graph": same_graph, "same_bindings": ident,
                           "registry": sys.modules.get(name) is mod, "loadtime": hasattr(mod, "__loadtime__")})
         out["fails"] = fails
         out["pre_fail_heap"] = {str(a): r for a, r in pre.items()}
@@ -585,6 +625,8 @@ def impl_case(c):
             else:
                 ident[n] = "kept" if cur[n] is captured[n] else "replaced"
         out["identity"] = ident
+        out["repointed"] = sorted(n for n, v in cur.items() if isinstance(v, type) and captured.get(n) is v and
+                                  any(getattr(b, "__module__", None) == name and cur.get(b.__name__) is not b for b in v.__bases__))
         out["via_old_refs"] = {n: obs_ns["obs_val"](v) for n, v in captured.items()
                                if not n.startswith("__") and ident.get(n) == "kept"}
         out["after"] = obs_ns["observe"](mod)
@@ -615,7 +657,7 @@ def heap_keys(recs):
     ks = set(SPECIAL)
     for r in recs.values():
         if r[0] == "func":
-            ks.add(r[1]); ks.update(r[8])
+            ks.add(r[1]); ks.update(r[10])
             if r[2] is not None:
                 ks.add(r[2])
         elif r[0] == "class":
@@ -636,8 +678,8 @@ def c_obj(r, K):
     N, L = cm.cN, cm.clist
     kv = lambda l: L([cm.cpair(N(K[k]), N(a)) for k, a in l])
     if r[0] == "func":
-        return "OFunc %s %s %s %s %s %s %s %s" % (N(K[r[1]]), cm.copt(r[2], lambda m: N(K[m])), N(r[3]), N(r[4]), N(r[5]),
-                                                 N(r[6]), L([N(a) for a in r[7]]), L([N(K[k]) for k in r[8]]))
+        return "OFunc %s %s %s %s %s %s %s %s %s %s" % (N(K[r[1]]), cm.copt(r[2], lambda m: N(K[m])), N(r[3]), N(r[4]), N(r[5]),
+                                                       N(r[6]), N(r[7]), N(r[8]), L([N(a) for a in r[9]]), L([N(K[k]) for k in r[10]]))
     if r[0] == "class":
         return "OClass %s %s %s %s %s" % (N(K[r[1]]), cm.copt(r[2], lambda m: N(K[m])), kv(r[3]), L([N(a) for a in r[4]]),
                                          cm.copt(r[5], lambda s: L([N(K[k]) for k in s])))
@@ -664,7 +706,7 @@ def canon_rec(r, K):
     """implementation record -> the shape printed by Wire.show_obj_ (keys as ids, assoc lists sorted)"""
     kv = lambda l: sorted([K[k], a] for k, a in l)
     if r[0] == "func":
-        return ["func", K[r[1]], None if r[2] is None else K[r[2]], r[3], r[4], r[5], r[6], r[7], [K[k] for k in r[8]]]
+        return ["func", K[r[1]], None if r[2] is None else K[r[2]], r[3], r[4], r[5], r[6], r[7], r[8], r[9], [K[k] for k in r[10]]]
     if r[0] == "class":
         return ["class", K[r[1]], None if r[2] is None else K[r[2]], kv(r[3]), r[4], None if r[5] is None else [K[k] for k in r[5]]]
     if r[0] == "dict":
@@ -719,9 +761,10 @@ def model_exprs(cases, impl):
             mod_addr = [int(a) for a, r in recs.items() if r[0] == "module"][0]
             names = "(mkNames %s %s %s %s)" % tuple(cm.cN(K[k]) for k in SPECIAL[:4])
             reg = cm.clist([cm.cpair(cm.cN(K[im["name"]]), cm.cN(mod_addr))])
-            k = im["fails"][len(im["fails"]) // 2]["k"]
-            exprs.append("run_xreload %s %s %s %s %s [] %s %s 0%%N (Some %s) %s" % (
-                h, reg, cm.cN(K[im["name"]]), cm.cN(mod_addr), cm.cN(999999), names, cm.cN(K["__loadtime__"]), cm.cnat(k), h))
+            fl = im["fails"][len(im["fails"]) // 2]
+            exprs.append("run_xreload %s %s %s %s %s [] %s %s 0%%N (Some (%s, %s)) %s" % (
+                h, reg, cm.cN(K[im["name"]]), cm.cN(mod_addr), cm.cN(999999), names, cm.cN(K["__loadtime__"]),
+                cm.cnat(fl["k"]), cm.cN(fl["kind"]), h))
             index.append((ci, "rollback", mod_addr))
     return exprs, index
 
@@ -754,6 +797,12 @@ def is_stale_function_cell(name, case):
 # ---------------------------------------------------------------------------------------------
 # oracle
 
+def is_base_repointed(name, im):
+    """C16-e: the class kept its identity but its __bases__ were set to the base class object of the SCRATCH module
+    instead of the (patched) base class of the module: issubclass(m.B, m.A) is False after the reload."""
+    return name in im.get("repointed", [])
+
+
 def stale_classes(c):
     """classes whose base list names a module-level class: the patched class points at the NEW base object"""
     return {n for n, d in c["nd"].items() if d[0] == "class" and d[1]}
@@ -767,7 +816,8 @@ def oracle_case(ctx, c, im):
         return
     # rollback at every statement index
     for f in im["fails"]:
-        if f["raised"] != "injected":
+        ctx.bump("oracle:failure_class:" + f["expected"])
+        if f["raised"] != f["expected"]:
             ctx.violation("rollback:injected_failure_not_propagated", c, f)
         elif not (f["same_graph"] and f["same_bindings"] and f["registry"]) or f["loadtime"]:
             ctx.violation("rollback", c, f)
@@ -798,6 +848,8 @@ def oracle_case(ctx, c, im):
         elif want == "f20":
             if got != "kept":
                 ctx.known_hit("F20", "a closure cell of %r holds a different plain value: the function is replaced, references captured earlier keep the old behaviour" % n)
+    for n in im.get("repointed", []):
+        ctx.known_hit("C16-e", "class %r keeps its identity but its __bases__ now point at the scratch module's base class: issubclass(m.%s, m.<base>) is False" % (n, n))
     # names
     if set(im["after"]["names"]) != set(fresh["names"]):
         ctx.violation("dict_shape", c, {"after_reload": sorted(im["after"]["names"]), "fresh_import": sorted(fresh["names"])})
@@ -913,6 +965,8 @@ def run(ctx):
         "ids of transient objects are assumed not to be recycled into the livepatch cache / visit stack during one reload",
     ]
     ctx.notes["trusted_base"] = ["harness snapshot of the CPython object graph (harness/c16.py Snap)"]
+    cm.check_anchors(ctx, ANCHORS)
+    n *= getattr(ctx, "scale", 1)
     cases = cm.load_corpus("C16") + gen_cases(ctx, n)
     impl = cm.run_impl("c16", "impl_case", cases, timeout_case=120)
     exprs, index = model_exprs(cases, impl)
